@@ -64,6 +64,54 @@ add("C16", "exploration",
     "Trusts kit/storespec.go, kit/sqlmodel.go; the cache handler's verdict for ephemeral events is not judged (C04 and C16 read differently there); SQLite REQs are issued at quiescence (sentinel row polled).",
     "DESIGN.md section 4, C16")
 
+add("C07", "exploration",
+    "runtime monitoring: offline must/must-not/may checker over logical-clock-stamped delivery histories of concurrent router sessions; back-pressure progress check with stack witness; registry conservation; race detector + verifPoint delays",
+    "2-8 concurrent scripted connections per run (REQ, re-REQ, CLOSE of open and unknown ids, EVENT, disconnects), every send/receipt stamped on one logical clock; every (subscription instance, publication) pair is classified by real-time order and deliveries must be exactly-once for must, absent for must-not, never duplicated, own sub ids only, in publication order per publisher; back-pressure runs with stalled readers require publishers to finish and draining subscribers to lose nothing. Held on the runs/pairs counted in the evidence under GOMAXPROCS 16/4/1." + RACE,
+    "Schedules are sampled (no controllable scheduler); the lower bound is waived for subscriptions of connections cut during the run; 'never delays publishers' is judged as bounded progress with a parked-goroutine witness.",
+    "DESIGN.md section 4, C07")
+
+add("C15", "exploration",
+    "runtime monitoring: porcupine linearizability checking of logical-clock-stamped Add/Find/Len histories against the sequential retention/query specification; concurrent invariant probes; Go race detector; verifPoint delays inside critical sections",
+    "2-8 goroutines (directly and through concurrent CacheHandler sessions) issue related insertions, queries and listings on one small store; each recorded history must be linearizable w.r.t. the deterministic sequential specification (porcupine; a timeout is inconclusive); a long stress mix checks every concurrent listing against the store invariants; any race report in mocrelay frames is a violation. Held on the histories counted in the evidence." + RACE,
+    "Schedules are sampled; histories use pairwise distinct created_at so that the sequential specification is deterministic; the race detector only sees paths the workload drives concurrently.",
+    "DESIGN.md section 4, C15")
+
+add("C10", "exploration",
+    "runtime monitoring: panic/fatal monitor + completeness and round-trip oracles over a seeded corpus of well-formed values, testdata lines and structural/byte mutants for every decoder entry point; race detector/checkptr",
+    "On ~110k (quick) / 1.0M (thorough) seeded inputs - well-formed values of all 14 wire types, testdata lines, structural and byte/token mutants, nesting bombs and 1 MB strings - no decoder entry point may panic, every accepted text must yield non-nil parts of the labelled type whose fields equal an independent encoding/json reading, and decode(encode(v)) and decode(encode(decode(t))) must be identities under the statement's equivalences. Each batch's inputs are on disk before it runs, so a process-fatal crash is attributable." + RACE,
+    "Top-level null, JSON null in scalar positions and a COUNT payload without count (Go zero-value convention) are observed and counted but not claimed; encoding/json is the tokenizer of both the reference reading and the code under test.",
+    "DESIGN.md section 4, C10")
+
+add("C11", "exploration",
+    "runtime monitoring: by-construction labels plus an independent reference validator over generated well-formed texts, a 70-class single-point corruption catalogue and multi-point mixes; end-to-end stream through Relay.ServeHTTP; race detector",
+    "Every generated well-formed EVENT/REQ/CLOSE/AUTH/COUNT text (all optional parts, whitespace at every token boundary, d values with ':') must be parsed into the same message and judged valid; every catalogue corruption must be rejected; every value judged valid in any stream must satisfy the statement's constraints (checked on the parsed value by the reference validator); the same verdicts are observed as forwarded-vs-NOTICE over real websocket frames. Held on the ~151k / 2M texts counted in the evidence." + RACE,
+    "Sub-cases the statement leaves open (null for an object or sub id, since > until, empty tags or tag names, sub-id length, exponent/odd integer forms, escaped labels, filterless REQ/COUNT, duplicate keys) are exercised and counted but never judged.",
+    "DESIGN.md section 4, C11")
+
+add("C17", "exploration",
+    "runtime monitoring: per-limit predicate oracle over messages driven through the real concurrent middleware wrapper in front of a recording handler (sentinel-synchronised), stacks in seeded orders, NIP-11-built chains for all 128 limit subsets; race detector",
+    "Every client message of ~126k / 1.9M seeded messages sent through mw(recordingHandler).ServeNostr is judged against the statement's predicates: forwarded deep-equal and in order iff it respects every configured limit, otherwise exactly one OK(false,id)/CLOSED(sub id) and nothing forwarded, with all scripted server messages passing unchanged and in order; covers each of the 10 stateless limit middlewares at limit-1/limit/limit+1/far, stacks of 2-6, and BuildMiddlewareFromNIP11 for all 128 subsets of the seven limits and documents without a limitation block." + RACE,
+    "created_at verdicts keep 90 s from the moving boundary; byte-vs-rune length, over-long CLOSE ids and limit-violating AUTH events are not claimed; the position of max_subscriptions in the chain is left open (either order accepted).",
+    "DESIGN.md section 4, C17")
+
+add("C18", "exploration",
+    "runtime monitoring: per-session shadow models (open set; last-size-distinct-ids window) judging sequential sessions that run concurrently on one shared middleware value; downstream open-count invariant; race detector",
+    "3k / 60k groups of 2-6 concurrent sessions on one shared MaxSubscriptions / RecvEventUniqueFilter / SendEventUniqueFilter value (alone and stacked) over 2-6-id alphabets, N and window sizes 1-4; each sequential session is judged step by step against independent models (forwarded iff open or fewer than N open; in-window ids rejected/suppressed, never-seen ids forwarded/delivered, outside-window either), plus foreign-tag detection and second-wave sessions for isolation; every quota boundary cell and window rank is required to have been observed." + RACE,
+    "Only N/size <= 4 and <= 6 concurrent connections; forwarding of CLOSE itself, server-side CLOSED and message texts other than the duplicate: prefix are not claimed.",
+    "DESIGN.md section 4, C18")
+
+add("C19", "exploration",
+    "runtime monitoring: transparency check plus conservation of gauges/counters (Registry.Gather) against both-side recordings at quiescent points of multi-session histories incl. simultaneous start/end bursts; race detector",
+    "At every quiescent point of every generated multi-session history (mixed scripts, a real MaxSubscriptions inside emitting CLOSED, churn, simultaneous-start/end bursts) the values read through Registry.Gather() must equal what the two sides of the middleware recorded: connection gauge = live sessions, subscription gauge = shadow open sets, per-type/per-kind counters = messages crossed, and every message must come out unaltered and in order. Held on the executions counted in the evidence." + RACE,
+    "Trusts the monitor's boundary handler/recorders and the causal chaining of REQ/CLOSE/CLOSED per (session, id); counters of sessions cut with a message in flight are accepted between 'forwarded' and 'taken'; UNDEFINED message types and the response-time summary are not judged.",
+    "DESIGN.md section 4, C19")
+
+add("C20", "exploration",
+    "runtime monitoring: httptest request matrix against ServeMux in all four configurations with a routing oracle (recording relay handler, relay logger, marker default handler), real websocket handshakes, independent NIP-11 reference reader/writer for round trips; race detector",
+    "8k / 150k seeded requests (Upgrade absent / full websocket handshake / defective handshake / other token x Accept absent / exact / near / other x methods x paths, over real connections and direct ServeHTTP) are judged by a routing oracle; served bodies are read by an independent reference reader and compared with the configured document along with Content-Type and CORS headers; 4k / 80k generated NIP11 values (all fields, single/ascending/descending/zero-ended kind entries) are checked for decode(encode(v)) = v and decode/re-encode stability of independently written texts incl. [k,k] pairs." + RACE,
+    "Near-miss Accept values (lists, parameters, case) are not claimed; with no document configured only 'valid JSON, empty document' is judged; values are sampled, not exhaustive.",
+    "DESIGN.md section 4, C20")
+
 NOT_YET = "check not built yet in this revision (work in progress; see DESIGN.md)"
 
 
